@@ -10,4 +10,5 @@ import Proofs.GenWalk
 #print axioms Xsel.C15.handler_walk_never_panics
 #print axioms Xsel.C15.handler_walk_result_or_error
 #print axioms Xsel.C15.any_forest_never_panics
+#print axioms Xsel.C15.denoting_forest_never_panics
 #print axioms Xsel.Gen.handlers_fit_productions
